@@ -128,7 +128,7 @@ theorem BJPost.ofJob {p : Option Nat} {t : Nat} {w0 w : World} {res : Status × 
   abort := fun code e => by cases e
 
 theorem buildJob_spec (hR : 0 < R) {E : Engine} (hE : ESpec R E) (d : Defects) (hd : d.oobRebuildsDepsNotTarget = false)
-    (cx : Ctx) (hRid : cx.runid = R) (hredo : cx.isRedo = false) (hcr : cx.crash = none) (hcyc : cx.cycles = cyc)
+    (cx : Ctx) (hRid : cx.runid = R) (hredo : cx.isRedo = false) (hcr : cx.crash = none) (hcyc : ∀ x ∈ cyc, x ∈ cx.cycles)
     (hpar : ∀ p, cx.parent = some p → p ∈ cyc) (fuel : Nat) {t : Nat} (ht : t ∉ cyc) (w : World)
     (hinv : RInv R cyc w) : BJPost R cyc cx.parent t w (buildJob E d cx fuel t w) := by
   unfold buildJob
@@ -176,17 +176,15 @@ theorem buildJob_spec (hR : 0 < R) {E : Engine} (hE : ESpec R E) (d : Defects) (
       | false =>
         simp only [Bool.false_eq_true, if_false, hd]
         generalize (if w1.oobRev = true then ts.eraseDups.reverse else ts.eraseDups) = ts'
-        have hcy1 : (oobCx1 d cx).cycles = cyc := hcyc
-        have h1 := hE (oobCx1 d cx) ts' w1 hRid rfl hcr
+        have hcy1 : ∀ x ∈ cyc, x ∈ (oobCx1 d cx t).cycles := fun x hx => List.mem_cons_of_mem _ (hcyc x hx)
+        have h1 := hE (oobCx1 d cx t) cyc ts' w1 hRid rfl hcr hcy1
           (by
             intro p hp
-            rw [hcy1]
             simp only [oobCx1] at hp
             split at hp
             · exact hpar p hp
             · cases hp)
-          (fun h => by cases h) (by rw [hcy1]; exact s1)
-        rw [hcy1] at h1
+          (fun h => by cases h) s1
         unfold oobCx1 at h1
         generalize E.ifchangeCmd _ ts' w1 = r1 at h1
         obtain ⟨rv1, w2⟩ := r1
@@ -203,11 +201,9 @@ theorem buildJob_spec (hR : 0 < R) {E : Engine} (hE : ESpec R E) (d : Defects) (
           split
           · rename_i heq
             cases heq
-            have hcy2 : (oobCx2 cx).cycles = cyc := hcyc
-            have h2 := hE (oobCx2 cx) [t] w2 hRid rfl hcr (by rw [hcy2]; exact hpar)
-              (by rw [hcy2]; intro _ t' ht'; simp only [List.mem_singleton] at ht'; rw [ht']; exact ht)
-              (by rw [hcy2]; exact i1)
-            rw [hcy2] at h2
+            have h2 := hE (oobCx2 cx) cyc [t] w2 hRid rfl hcr hcyc hpar
+              (by intro _ t' ht'; simp only [List.mem_singleton] at ht'; rw [ht']; exact ht)
+              i1
             unfold oobCx2 at h2
             obtain ⟨j1, j2, j3, j4⟩ := h2
             have hstep := s2.ofNoAdd.trans ((i2.mono hadd1).trans j2)
@@ -239,7 +235,7 @@ structure RTPost (R : Nat) (cyc : List Nat) (p : Option Nat) (ts seen : List Nat
   nn : 0 ≤ res.1
 
 theorem runTargets_spec (hR : 0 < R) {E : Engine} (hE : ESpec R E) (d : Defects) (hd : d.oobRebuildsDepsNotTarget = false)
-    (cx : Ctx) (hRid : cx.runid = R) (hredo : cx.isRedo = false) (hcr : cx.crash = none) (hcyc : cx.cycles = cyc)
+    (cx : Ctx) (hRid : cx.runid = R) (hredo : cx.isRedo = false) (hcr : cx.crash = none) (hcyc : ∀ x ∈ cyc, x ∈ cx.cycles)
     (hpar : ∀ p, cx.parent = some p → p ∈ cyc) (fuel : Nat) :
     ∀ (ts seen : List Nat) (e : Bool) (w : World), (cx.unlocked = true → ∀ t ∈ ts, t ∉ cyc) → RInv R cyc w →
       (e = false → ∀ s ∈ seen, Settled R cyc w s ∧ s ∉ cyc) →
@@ -287,7 +283,7 @@ theorem runTargets_spec (hR : 0 < R) {E : Engine} (hE : ESpec R E) (d : Defects)
             | false =>
               rw [hu] at hcc
               simp only [Bool.not_false, Bool.true_and, decide_eq_false_iff_not] at hcc
-              rw [← hcyc]; exact hcc
+              exact fun h => hcc (hcyc t h)
           have hj := buildJob_spec hR hE d hd cx hRid hredo hcr hcyc hpar fuel htc (addKnown w t) k1
           generalize buildJob E d cx fuel t (addKnown w t) = jr at hj
           obtain ⟨r, w1⟩ := jr
